@@ -2,6 +2,7 @@
 From Coq Require Import List NArith ZArith Bool Arith String.
 Import ListNotations.
 Require Import CostScan CostLemmas.
+Require Scan ParseL PT ParserSafe ParserTerm.
 
 (* KIND C20_catalogue_doubling : F *)
 (* the property's own quantifier is a finite catalogue x sizes n, 2n, 4n: for the 15 scanner-bound load families the number of reader-primitive calls of the scanner
@@ -10,6 +11,14 @@ Theorem C20_catalogue_doubling : doubling_ok 30 = true /\ doubling_ok 60 = true.
 Proof. exact l_catalogue_doubling. Qed.
 Eval vm_compute in "ASSUME:C20_catalogue_doubling"%string. Print Assumptions C20_catalogue_doubling.
 
+(* KIND C20_parser_work_linear : U *)
+(* beyond the catalogue, for the parser stage: for EVERY token list STREAM-START ... single STREAM-END (any family, any size) the
+   complete run of the parser model - it is total - takes at most 8n+16 steps and delivers at most that many events: linear work *)
+Theorem C20_parser_work_linear : forall t r, Scan.t_kind t = Scan.TStreamStart -> PT.toks_ok r ->
+  ParserTerm.total (snd (ParseL.parse_all (t :: r))) /\ (List.length (fst (ParseL.parse_all (t :: r))) <= 8 * List.length (t :: r) + 16)%nat.
+Proof. exact ParserTerm.parser_work_linear. Qed.
+Eval vm_compute in "ASSUME:C20_parser_work_linear"%string. Print Assumptions C20_parser_work_linear.
+
 (* PARTIAL: the cost model covers the scanner only (exact for prefix/forward, within 15% for peek, checked by the cost correspondence against sys.setprofile counts);
-   parser, composer, constructor, representer, serializer and emitter work and the remaining families are decided by the direct measurement of interpreter-level
+   composer, constructor, representer, serializer and emitter work, the parser's work per step, and the remaining families are decided by the direct measurement of interpreter-level
    calls on the implementation at n, 2n, 4n.  The general claim "no family is super-linear" is not a theorem; simple_key_window / emit_queue_bounded are not proved. *)
